@@ -10,9 +10,14 @@ for l in open('/verif/properties.jsonl'):
 prev = ""
 import os
 mp = f"/verif/seeded/{pid}/meta.json"
-if len(sys.argv) > 3 and sys.argv[3] == "wave2" and os.path.exists(mp):
+if len(sys.argv) > 3 and sys.argv[3] in ("wave2", "wave3") and os.path.exists(mp):
     b = json.load(open(mp)).get("breaks") or ""
-    prev = f"\n\nAn earlier, independently written change for this property already exists; it did the following: {b[:700]}\nYours must be DIFFERENT IN NATURE: a different code site or a different mechanism (do not produce a variation of that change).\n"
+    prev = f"\n\nAn earlier, independently written change for this property already exists; it did the following: {b[:700]}\n"
+    mp2 = f"/verif/seeded/{pid}-2/meta.json"
+    if sys.argv[3] == "wave3" and os.path.exists(mp2):
+        b2 = json.load(open(mp2)).get("breaks") or ""
+        prev += f"A second one did the following: {b2[:700]}\n"
+    prev += "Yours must be DIFFERENT IN NATURE from these: a different code site or a different mechanism (do not produce a variation of an existing change). Look for parts of the property statement that those changes did not touch.\n"
 print(f"""You are testing how robust a Go project's behaviour is against subtle regressions. The project is minekube/gate (a Minecraft Java/Bedrock reverse proxy written in Go). You have your own scratch git worktree of it at {wt} (work ONLY there; never touch /repo or /verif, and do not read anything under /verif).
 
 Here is a semantic property that the unmodified code is supposed to satisfy:
